@@ -147,6 +147,14 @@ func extractC13() *lean {
 	thCallsDelete := false
 	if th := c13Method(mgr, "SqlManager", "transactionHelper"); th != nil {
 		for _, st := range th.Body.List {
+			// a plain top-level `if … { return … }` (a way out between the steps)
+			if is, ok := st.(*ast.IfStmt); ok && is.Init == nil {
+				for _, b := range is.Body.List {
+					if _, ok := b.(*ast.ReturnStmt); ok {
+						shape = append(shape, "if("+exprString(is.Cond)+"):return")
+					}
+				}
+			}
 			ast.Inspect(st, func(n ast.Node) bool {
 				switch x := n.(type) {
 				case *ast.CallExpr:
@@ -256,6 +264,45 @@ func extractC13() *lean {
 	}
 	l.def("createChecksSubjectInsideTransaction", "Bool", c13Bool(inside), inside)
 	l.def("createSubjectChecksOutsideTransaction", "List String", leanStrList(outside), outside)
+
+	// ---- Create: which subject does the stored DID row get, and in which loop is it stored?
+	storedDID, storeLoop := "MISSING", "MISSING"
+	if fd := c13Method(mgr, "SqlManager", "Create"); fd != nil {
+		lits := map[string]string{}
+		ast.Inspect(fd, func(n ast.Node) bool {
+			if as, ok := n.(*ast.AssignStmt); ok && len(as.Lhs) == 1 && len(as.Rhs) == 1 {
+				if cl, ok := as.Rhs[0].(*ast.CompositeLit); ok && exprString(cl.Type) == "orm.DID" {
+					var kv []string
+					for _, e := range cl.Elts {
+						if k, ok := e.(*ast.KeyValueExpr); ok {
+							kv = append(kv, exprString(k.Key)+": "+exprString(k.Value))
+						}
+					}
+					lits[exprString(as.Lhs[0])] = "orm.DID{" + strings.Join(kv, ", ") + "}"
+				}
+			}
+			return true
+		})
+		ast.Inspect(fd, func(n ast.Node) bool {
+			rs, ok := n.(*ast.RangeStmt)
+			if !ok {
+				return true
+			}
+			ast.Inspect(rs.Body, func(m ast.Node) bool {
+				if c, ok := m.(*ast.CallExpr); ok && strings.HasSuffix(exprString(c.Fun), ".CreateOrUpdate") && len(c.Args) > 0 {
+					a := exprString(c.Args[0])
+					if l, ok := lits[a]; ok {
+						a = l
+					}
+					storedDID, storeLoop = a, exprString(rs.X)
+				}
+				return true
+			})
+			return true
+		})
+	}
+	l.def("createStoresDID", "String", fmt.Sprintf("%q", storedDID), storedDID)
+	l.def("createStoresInLoopOver", "String", fmt.Sprintf("%q", storeLoop), storeLoop)
 
 	// ---- transactionHelper: are the change records saved with the transaction handle inside the first Transaction closure?
 	savedInside := false
